@@ -10,6 +10,10 @@ import TensoraVerif.Model.CTokens
 import TensoraVerif.Model.Ownership
 import TensoraVerif.Model.GenerateIR
 import TensoraVerif.Lemmas.PeepholeExact
+import TensoraVerif.Model.Taco
+import TensoraVerif.Model.Scoped
+import TensoraVerif.Lemmas.StoreCertGenerate
+import TensoraVerif.Lemmas.LowerableComplete
 open TV
 
 namespace Drv
@@ -243,6 +247,22 @@ def handle (cmd : String) (args : List Sexp) : Sexp :=
     | some m => .list (m.defs.map fun f =>
         .list (f.body.reassociated.map fun e => .str (IR.cExpr (showFloat reprs) e)))
     | none => Sexp.mk "bad-request" [.str "unknown-constructor"]
+  | "CERT", [.atom "scope", m] =>
+    -- C06, per function: (scopeOK, hoistConsistent) = the two hypotheses of `scoped_eq_flat`
+    match IR.Wire.moduleOf m with
+    | some m => .list (m.defs.map fun f => .list [Sexp.ofBool (IR.scopeOK f.params f.body),
+        Sexp.ofBool (IR.hoistConsistent f.params f.body)])
+    | none => Sexp.mk "bad-request" [.str "unknown-constructor"]
+  | "CERT", [.atom "stores", a, fs, m] =>
+    -- C04/C05, per function of an emitted module: the store-target certificate of
+    -- `generateIr_store_targets` / `generateIr_compute_structure_untouched`, evaluated on the code's own IR
+    match Alg.Wire.assignOf a, Graph.Wire.formatsOf fs, IR.Wire.moduleOf m with
+    | some a, some fs, some m =>
+      let T := Gen.outTensor (Alg.desugar a) fs
+      .list (m.defs.map fun f =>
+        if f.name == "compute" then Sexp.ofBool (f.body.storeCert Gen.anyVar (Gen.okOutValArr T) false T.name)
+        else Sexp.ofBool (f.body.storeCert Gen.anyVar (Gen.okOutArr T) true T.name))
+    | _, _, _ => Sexp.mk "bad-request" [.str "stores-args"]
   | "CERT", [.atom "hoist", m] =>
     match IR.Wire.moduleOf m with
     | some m => Sexp.ofBool (m.defs.all fun f => IR.hoistConsistent f.params f.body)
@@ -296,6 +316,10 @@ def handle (cmd : String) (args : List Sexp) : Sexp :=
     match Parse.Wire.assignOf a with
     | some a => .str a.deparse
     | none => Sexp.mk "bad-request" [.str "unknown-constructor"]
+  | "DEPARSETACO", [a] =>
+    match Parse.Wire.assignOf a with
+    | some a => .str a.deparseTaco
+    | none => Sexp.mk "bad-request" [.str "unknown-constructor"]
   | "VALIDATE", [a] =>
     match Parse.Wire.assignOf a with
     | some a => match Parse.validate a with
@@ -330,7 +354,10 @@ def handle (cmd : String) (args : List Sexp) : Sexp :=
       | .ok [] => Sexp.mk "nokernel" []
       | .ok (g :: rest) =>
         Sexp.mk "graph" [Graph.Wire.graphToSexp g, Sexp.ofNat (rest.length + 1),
-          Sexp.ofBool (Graph.lowerable outModes g (.append 0))]
+          Sexp.ofBool (Graph.lowerable outModes g (.append 0)),
+          -- hypotheses of `lowerable_iff_generateIr_ok` and of `generateIr_store_targets` on the chosen graph
+          Sexp.ofBool (Gen.properSums g), Sexp.ofBool (Gen.noSkip g),
+          Sexp.ofBool (Gen.outLeavesOf (Gen.outTensor d fs) g)]
     | _, _ => Sexp.mk "bad-request" [.str "graph-args"]
   | "EXHAUST", [e, .list refs] =>
     match Graph.Wire.idExprOf e, refs.mapM Sexp.toStr? with
